@@ -9,7 +9,7 @@ import itertools
 ID = "C17"
 LEVEL = "exploration"
 RULE = ("exhaustive: (start, stop) in {None,-7..7}^2, step in {None,1..4}, every flow "
-        "0..10 (thorough: -11..11, steps up to 9, flows 0..18; one case = one argument triple "
+        "0..10 (thorough: -16..16, steps up to 12, flows 0..24; one case = one argument triple "
         "x all flow lengths, in 1-, 2- and 3-argument form where expressible); fill_into for "
         "all non-negative triples; a table of large indices (250..1023, negative -1..-1000) on "
         "flows of 0..1030 values built from run-time int objects; invalid steps; "
@@ -32,12 +32,12 @@ MIN_NONTRIVIAL = {"quick": 1000, "thorough": 1000}
 
 IDX = [None] + list(range(-7, 8))
 STEPS = [None, 1, 2, 3, 4]
-NMAX = {"quick": 10, "thorough": 18}
+NMAX = {"quick": 10, "thorough": 24}
 
 
 def cases(tier, seed):
-    idx = IDX if tier == "quick" else [None] + list(range(-11, 12))
-    steps = STEPS if tier == "quick" else STEPS + [5, 6, 9]
+    idx = IDX if tier == "quick" else [None] + list(range(-16, 17))
+    steps = STEPS if tier == "quick" else STEPS + [5, 6, 9, 12]
     for a in idx:
         for b in idx:
             for c in steps:
